@@ -26,7 +26,7 @@ VERIF = os.path.dirname(os.path.dirname(os.path.abspath(__file__)))
 REPO = os.environ.get("VERIF_REPO", "/repo")
 SPEC = os.path.join(VERIF, "spec")
 HARNESS = os.path.join(VERIF, "harness")
-EVID = os.path.join(VERIF, "evidence")
+EVID = os.environ.get("VERIF_EVIDENCE", os.path.join(VERIF, "evidence"))   # mutant runs point this elsewhere
 REPLAY = os.path.join(EVID, "replay")
 NCPU = os.cpu_count() or 4
 
